@@ -39,25 +39,27 @@ Inductive outcome : Type :=
 Definition wdict_truthy (w : wdict) : bool :=
   match w_selected w, w_other w with Absent, Absent => false | _, _ => true end.
 
-(* filter_stats.get("filtered_complete", {}).get("weighted"):
-   None = the expression raises (None has no .get); Some None = falsy; Some (Some w) = truthy dict *)
+(* ((result.get("filter_stats") or {}).get("filtered_complete") or {}).get("weighted"):
+   None = the expression raises (never, since the repair of the null-dict defect: a JSON null where
+   a dict is expected counts as not present); Some None = falsy; Some (Some w) = truthy dict *)
 Definition weighted_complete (r : fshape) : option (option (wdict * bool)) :=
   match r_filter_stats r with
-  | Null => None
+  | Null => Some None
   | Absent => Some None
   | Val fs =>
       match fs_complete fs with
-      | Null => None
+      | Null => Some None
       | Absent => Some None
       | Val (Val w) => if wdict_truthy w then Some (Some (w, fs_is_cat_date fs)) else Some None
       | Val _ => Some None
       end
   end.
 
-(* result.get(key, {}).get("weighted_n"): None = raises; Some None = Python None; Some (Some q) *)
+(* (result.get(key) or {}).get("weighted_n"): None = raises (never); Some None = Python None;
+   Some (Some q) *)
 Definition weighted_n (f : field (field Q)) : option (option Q) :=
   match f with
-  | Null => None
+  | Null => Some None
   | Absent => Some None
   | Val (Val q) => Some (Some q)
   | Val _ => Some None
@@ -154,13 +156,12 @@ Definition pop_moe (rcd ccd : bool) (rowse colse tabse : mat) (N f : xq) : mat :
   tab2 (nrows S) (ncols S) (fun i j => moe_cell (mnth S i j) N f).
 
 (* strand: a categorical-date strand projects the whole population on every row (proportion 1,
-   standard error 0).  None = the property raises: `proportions[diff_row_idxs] = nan` indexes the
-   1-D array with the TUPLE of difference positions (two or more positions are read as a
-   multi-dimensional index: IndexError), and for a categorical-date strand the array is the integer
-   array np.repeat(1, n) which cannot hold NaN (ValueError). *)
+   standard error 0).  None = the property raises - never, since the repair of the two strand
+   defects (`proportions[diff_row_idxs] = nan` indexed the 1-D array with the TUPLE of difference
+   positions, and a categorical-date strand used the integer array np.repeat(1, n)): the
+   proportions are a float array indexed by the list of difference positions. *)
 Definition count_true (l : list bool) : nat := length (filter (fun b => b) l).
-Definition strand_pop_raises (cd : bool) (dr : list bool) : bool :=
-  (2 <=? count_true dr) || (cd && (count_true dr =? 1)).
+Definition strand_pop_raises (cd : bool) (dr : list bool) : bool := false.
 Definition strand_pop_values (cd : bool) (tabp : list xq) (N f : xq) (dr : list bool) : list xq :=
   tab (length tabp) (fun i => pop_cell (if cd then Fin 1 else vnth tabp i) N f (nth i dr false)).
 Definition strand_pop_counts (cd : bool) (tabp : list xq) (N f : xq) (dr : list bool)
